@@ -366,6 +366,7 @@ package sio
 //@   callsite (*ackHandler).call
 //@     requires !(*header.ID in s.acks) [C03.cli.onack.delete]
 //@     requires recv == old(s.acks[*header.ID]) [C03.cli.onack.handler]
+//@     requires !held(s.acksMu) [C03.cli.onack.unlocked]
 //@     update called = called + 1
 //@   callsite decode skip   // assumption: decoding the reply's arguments does not touch the socket's ack table
 //@   ensures called <= 1 [C03.cli.onack.once]
@@ -377,6 +378,7 @@ package sio
 //@   callsite (*ackHandler).call
 //@     requires !(*header.ID in s.acks) [C03.srv.onack.delete]
 //@     requires recv == old(s.acks[*header.ID]) [C03.srv.onack.handler]
+//@     requires !held(s.acksMu) [C03.srv.onack.unlocked]
 //@     update called = called + 1
 //@   callsite decode skip   // assumption: decoding the reply's arguments does not touch the socket's ack table
 //@   ensures called <= 1 [C03.srv.onack.once]
